@@ -3,23 +3,27 @@
 // Model-based check.  A command sequence is executed against
 //   * a view `dynamic_array_ref<Byte, Value, Length, Endian>` over the middle of a pattern-filled arena, and
 //   * a `std::vector<Value>` that receives literally the same member call.
-// After every command the oracle (see Machine::step) compares the independently decoded length prefix, the
+// After every command the oracle (see MachineBase::step) compares the independently decoded length prefix, the
 // payload bytes, the returned iterator offset, every arena byte outside the prefix + payload-in-use, the
 // read-only accessors, and requires that no sbepp assertion fired (SBEPP_ENABLE_ASSERTS_WITH_HANDLER).
 //
 // Engines (selected with --mode, default all):
 //   closure  capacity 4, values {a,b}: breadth-first closure over *every reachable buffer state* (state = length
-//            prefix + all 4 payload bytes), every command from every state.  The view has no state besides the
-//            buffer, so this covers command sequences of any depth.
+//            prefix + all 4 payload bytes, each of a, b, 0 or the fill byte: 1280 states), every command from every
+//            state.  The view has no state besides the buffer, so this covers command sequences of any depth.
 //   dfs      literal enumeration of all command sequences of depth <= D (--dfs-depth, default 3) from each of the
-//            31 states "contents in {a,b}^0..4, unused tail = pattern"; can be sharded (--shard i/n).
+//            31 states "contents in {a,b}^0..4, unused tail = fill byte"; can be sharded (--shard i/n).
 //   random   rapidcheck: generated abstract command lists, resolved against the current model state so that every
 //            command satisfies its documented precondition; long sequences, capacities 0..40, 250..261
 //            (uint8 length limit) and 65530..65539 (uint16 limit), arbitrary bytes.  Shrinks.
 //
+// The type matrix (length x byte order x element x byte type) can be split over several binaries at compile time
+// (-DC13_PARTS=n -DC13_PART=k): one instantiation costs about a second of compile time under ASan+UBSan.
+//
 // Case syntax (FAIL lines, --replay):   cfg=<len>.<le|be>.<value>.<byte>;cap=<n>;size=<n>;buf=<hex>;ops=<cmd> <cmd> ...
-//   buf = initial bytes of the payload area (rest: arena pattern), size = initial length prefix,
+//   buf = initial bytes of the payload area (rest: fill byte 0xEE), size = initial length prefix,
 //   cmd = name(args): positions/counts decimal offsets from begin(), element values two hex digits, data x<hex>.
+// A sanitizer abort prints the exact case in flight (death callback), so crashes are replayable too.
 #ifndef SBEPP_ENABLE_ASSERTS_WITH_HANDLER
 #    define SBEPP_ENABLE_ASSERTS_WITH_HANDLER
 #endif
@@ -1117,7 +1121,7 @@ struct Dfs
     std::vector<std::string> saved;
     std::vector<const CCmd*> path;
     std::string root_head;
-    long nodes, nontrivial;
+    long nodes;
     bool count_nontrivial;
     std::string sample;
     Outcome out;
@@ -1162,7 +1166,7 @@ struct Dfs
 
 static void run_dfs(Ctx& cx, IMachine& m, int depth, long shard, long nshards)
 {
-    Dfs d{cx, m, depth, {}, {}, {}, "", 0, 0, true, "", {}};
+    Dfs d{cx, m, depth, {}, {}, {}, "", 0, true, "", {}};
     d.ops.resize(SCOPE_CAP + 1);
     for(size_t n = 0; n <= SCOPE_CAP; n++) d.ops[n] = enumerate_ops(n, SCOPE_CAP, SCOPE_ALPHA, false);
     d.saved.resize(depth + 1);
